@@ -23,7 +23,7 @@ func registerC15() {
 		Level: "exploration",
 		Rule: "every entry of the live lookup table (hook), every known message number and every member of the 17 file containers is examined; a case is one " +
 			"(message, field) entry (static agreement of entry, struct field type and constructor value) and, dynamically, one stream carrying exactly that field at profile size " +
-			"decoded under every container hosting the message (else Activity) and re-encoded when hosted; plus, per known message and hosting container, two streams in which the message arrives under a compressed timestamp header (zero-field definition; every other field defined and invalid): the carried time must land in the struct field the table gives for field 253 and nowhere else; and per entry a definition with each of the 17 base types (three sizes, both byte orders): rejected, or decoded and re-encoded without a panic; non-trivial: the entry exists and was compared",
+			"decoded under every container hosting the message (else Activity) and re-encoded when hosted; plus, per known message and hosting container, two streams in which the message arrives under a compressed timestamp header (zero-field definition; every other field defined and invalid): the carried time must land in the struct field the table gives for field 253 and nowhere else; and per entry a definition with each of the 17 base types (three sizes, both byte orders, header profile version at and above the library's own): rejected, or decoded and re-encoded without a panic; non-trivial: the entry exists and was compared",
 		Assume: []string{
 			"the bundled SDK 21.40 workbook, read by the harness's own xlsx reader, is the independent source for field numbers and names; the 23 table entries newer than 21.40 are compared with ref/sdk21115.go, a list written down at development time and reviewed by hand against the SDK 21.115 profile (a pinned record, not a second derivation)",
 		},
@@ -521,8 +521,10 @@ func c15OtherBaseTypes(c *lib.Ctx, entries []fit.VerifField) {
 				if sz <= 0 || sz > 255 {
 					continue
 				}
-				for arch := byte(0); arch < 2; arch++ {
-					plan := &ref.Plan{HeaderSize: 14, Proto: 0x10, ProfVer: 2115}
+				for archpv := byte(0); archpv < 4; archpv++ {
+					// both byte orders, and a header profile version at / above the library's own
+					arch := archpv & 1
+					plan := &ref.Plan{HeaderSize: 14, Proto: 0x10, ProfVer: []uint16{2115, 21158}[archpv>>1]}
 					plan.Records = append(plan.Records,
 						ref.Record{IsDef: true, Local: 0, Global: 0, Fields: []ref.FieldDef{{Num: 0, Size: 1, Base: 0}}},
 						ref.Record{Local: 0, Data: [][]byte{{ft}}},
